@@ -67,6 +67,10 @@ def path_shapes():
     P.append(('path-mixed', lambda k: sp.Path(sp.Line(0j, 3 * k), sp.CubicBezier(3 * k, (4 + 3j) * k, (6 + 3j) * k, (7 + 0j) * k),
                                                sp.Arc(7 * k, (2 + 2j) * k, 0, False, True, (11 + 0j) * k),
                                                sp.QuadraticBezier(11 * k, (12 + 2j) * k, (14 + 0j) * k)), False))
+    # paths that traverse an *equal* segment twice (segments must be addressed by position, not by equality)
+    P.append(('path-repeat-lines', lambda k: sp.Path(sp.Line(0j, 100 * k), sp.Line(100 * k, 0j), sp.Line(0j, 100 * k)), True))
+    P.append(('path-repeat-cubic', lambda k: sp.Path(sp.CubicBezier(0j, (1 + 2j) * k, (2 + 4j) * k, (3 + 6j) * k), sp.Line((3 + 6j) * k, 0j),
+                                                      sp.CubicBezier(0j, (1 + 2j) * k, (2 + 4j) * k, (3 + 6j) * k)), True))
     return P
 
 
@@ -160,7 +164,7 @@ def run(ck):
     ck.tlc('Bisect', mc, need_actions=['Zero', 'One', 'Hit', 'GoLow', 'GoHigh'], timeout=3000)
     ck.tlc('Bisect', mc.replace('P = 3', 'P = 2').replace('LMax = 5', 'LMax = 9').replace('LMax = 6', 'LMax = 11'), timeout=3000)
     scales = [1e-3, 1.0, 1e3, 1e6]
-    fr = [0.0, 1e-9, 1 / 7.0, 0.25, 0.5, 0.61803398875, 0.9, 1 - 1e-9, 1.0]
+    fr = [0.0, 1e-9, 1e-6, 1e-4, 1 / 7.0, 0.25, 0.5, 0.61803398875, 0.9, 1 - 1e-9, 1.0]
     if not quick:
         fr += [1e-4, 1 / 3.0, 0.75, 0.999, 0.05, 0.95, 0.123456789]
     fr = sorted(fr)
